@@ -19,6 +19,7 @@ Oracle (independent of the model):
           effective mode == notes => the flagged key never appears unmasked.  The effective mode is computed
           from the configuration by the documented resolution order, not by the model.
 """
+import hashlib
 import json
 import os
 import re
@@ -180,7 +181,8 @@ class Agent:
         # claude preset, offline: a JSONL transcript file
         tdir = os.path.join(sim.base, "claude")
         os.makedirs(tdir, exist_ok=True)
-        tp = os.path.join(tdir, f"00000000-0000-4000-8000-{abs(hash(session)) % 10**12:012d}.jsonl")
+        sid = int(hashlib.sha256(session.encode()).hexdigest()[:10], 16) % 10**12
+        tp = os.path.join(tdir, f"00000000-0000-4000-8000-{sid:012d}.jsonl")
         lines = []
         for role, body in self.messages(tag):
             ts = "2024-01-01T00:00:00Z"
@@ -240,18 +242,94 @@ def human_top(base, tag):
     return f"human {tag}\n" + base
 
 
+def run_phase(sim, ag, path, k, inline, must):
+    """one note-writing path, on its own file / branch / session; returns the writer steps for the model"""
+    fpath, sess, tag, feat = f"f{k}.txt", f"s{k}", f"t{k}", f"feat{k}"
+
+    def commit(msg, *extra):
+        sim.realgit("add", "-A")
+        must(sim.git("commit", "-q", "-m", msg, *extra), "commit " + msg)
+
+    def g_line():
+        sim.write("g.txt", (sim.read("g.txt") or "") + f"h{k}\n")
+
+    sim.git("checkout", "-q", "main")
+    if path == "commit":
+        must(ag.edit(sess, fpath, ai_text(F0, tag), tag), "checkpoint")
+        commit(f"c{k}")
+        return [("post_commit", 1)]
+    if path == "amend-pending":
+        g_line()
+        commit(f"c{k}")
+        must(ag.edit(sess, fpath, ai_text(F0, tag), tag), "checkpoint")
+        commit(f"c{k} amended", "--amend")
+        return [("post_commit", 0), ("rewrite_authorship_after_commit_amend", 1 if inline else 0)]
+    if path == "amend-clean":
+        must(ag.edit(sess, fpath, ai_text(F0, tag), tag), "checkpoint")
+        commit(f"c{k}")
+        g_line()
+        commit(f"c{k} amended", "--amend")
+        return [("post_commit", 1), ("rewrite_authorship_after_commit_amend", 0)]
+    if path in ("rebase-slow", "rebase-fast", "cherry-pick", "squash", "ci-squash"):
+        sim.realgit("checkout", "-q", "-b", feat)
+        must(ag.edit(sess, fpath, ai_text(F0, tag), tag), "checkpoint")
+        commit(f"{feat} 1")
+        tip = sim.head()
+        sim.git("checkout", "-q", "main")
+        if path == "rebase-fast":
+            g_line()
+        else:
+            sim.write(fpath, human_top(F0, f"m{k}"))
+        commit(f"main {k}")
+        if path in ("rebase-slow", "rebase-fast"):
+            sim.git("checkout", "-q", feat)
+            must(sim.git("rebase", "main"), "rebase")
+            return [("post_commit", 1), ("post_commit", 0),
+                    ("rewrite_authorship_after_rebase_v2" if path == "rebase-slow"
+                     else "try_fast_path_rebase_note_remap", 0)]
+        if path == "cherry-pick":
+            must(sim.git("cherry-pick", tip), "cherry-pick")
+            return [("post_commit", 1), ("post_commit", 0), ("rewrite_authorship_after_cherry_pick", 0)]
+        if path == "squash":
+            must(sim.git("merge", "--squash", feat), "merge --squash")
+            must(sim.git("commit", "-q", "-m", f"squashed {k}"), "commit squashed")
+            return [("post_commit", 1), ("post_commit", 0), ("post_commit", 0)]
+        must(sim.realgit("merge", "--squash", feat), "plain merge --squash")
+        must(sim.realgit("commit", "-q", "-m", f"squashed by the forge {k}"), "plain commit")
+        must(sim.gitai("squash-authorship", "main", sim.head(), tip), "squash-authorship")
+        return [("post_commit", 1), ("post_commit", 0), ("rewrite_authorship_after_squash_or_rebase", 0)]
+    if path == "reset-recommit":
+        must(ag.edit(sess, fpath, ai_text(F0, tag), tag), "checkpoint")
+        commit(f"c{k}")
+        must(sim.git("reset", "--soft", "HEAD~1"), "reset --soft")
+        must(sim.git("commit", "-q", "-m", f"c{k} again"), "recommit")
+        return [("post_commit", 1), ("post_commit", 0)]
+    if path == "stash-pop":
+        must(ag.edit(sess, fpath, ai_text(F0, tag), tag), "checkpoint")
+        must(sim.git("stash"), "stash")
+        must(sim.git("stash", "pop"), "stash pop")
+        commit(f"c{k}")
+        return [("post_commit", 1)]
+    raise ValueError(path)
+
+
 def run_path(args):
-    """one scenario: returns the scan of refs/notes/ai (and of refs/notes/ai-stash) plus what the model needs"""
-    base, idx, cfgname, path, kind, keys = args
+    """one scenario (one path, or several composed in one repository): the scan of refs/notes/ai (and of
+    refs/notes/ai-stash) plus what the model needs"""
+    base, idx, cfgname, paths, kind, keys = args
+    if isinstance(paths, str):
+        paths = [paths]
     cfg, remote = CONFIGS[cfgname]
     sim = Sim(base, f"y{idx}", config_patch={})
-    steps = []          # (writer fn, has fresh inline text) for the model
     inline = kind == "inline"
     try:
         os.makedirs(os.path.join(sim.home, ".git-ai"), exist_ok=True)
         with open(os.path.join(sim.home, ".git-ai", "config.json"), "w") as f:
             json.dump(cfg, f)
-        sim.init({"f.txt": F0, "g.txt": G0})
+        files = {"g.txt": G0}
+        for k in range(len(paths)):
+            files[f"f{k}.txt"] = F0
+        sim.init(files)
         if remote:
             sim.realgit("remote", "add", "origin", remote)
         ag = Agent(sim, kind, keys)
@@ -262,76 +340,18 @@ def run_path(args):
             if rc != 0:
                 problems.append(f"{what} rc={rc} {rc_err[-1][-160:] if isinstance(rc_err, tuple) else ''}")
 
-        def commit(msg, *extra):
-            sim.realgit("add", "-A")
-            must(sim.git("commit", "-q", "-m", msg, *extra), "commit " + msg)
-
-        if path == "commit":
-            must(ag.edit("s1", "f.txt", ai_text(F0, "1"), "t1"), "checkpoint")
-            commit("c1")
-            steps = [("post_commit", 1)]
-        elif path == "amend-pending":
-            sim.write("g.txt", G0 + "h\n")
-            commit("c1")
-            must(ag.edit("s1", "f.txt", ai_text(F0, "1"), "t1"), "checkpoint")
-            commit("c1 amended", "--amend")
-            steps = [("post_commit", 0), ("rewrite_authorship_after_commit_amend", 1 if inline else 0)]
-        elif path == "amend-clean":
-            must(ag.edit("s1", "f.txt", ai_text(F0, "1"), "t1"), "checkpoint")
-            commit("c1")
-            sim.write("g.txt", G0 + "h\n")
-            commit("c1 amended", "--amend")
-            steps = [("post_commit", 1), ("rewrite_authorship_after_commit_amend", 0)]
-        elif path in ("rebase-slow", "rebase-fast", "cherry-pick", "squash", "ci-squash"):
-            sim.realgit("checkout", "-q", "-b", "feat")
-            must(ag.edit("s1", "f.txt", ai_text(F0, "1"), "t1"), "checkpoint")
-            commit("feat 1")
-            feat = sim.head()
-            sim.git("checkout", "-q", "main")
-            if path == "rebase-fast":
-                sim.write("g.txt", G0 + "h\n")
-            else:
-                sim.write("f.txt", human_top(F0, "m"))
-            commit("main 1")
-            if path in ("rebase-slow", "rebase-fast"):
-                sim.git("checkout", "-q", "feat")
-                must(sim.git("rebase", "main"), "rebase")
-                steps = [("post_commit", 1), ("post_commit", 0),
-                         ("rewrite_authorship_after_rebase_v2" if path == "rebase-slow"
-                          else "try_fast_path_rebase_note_remap", 0)]
-            elif path == "cherry-pick":
-                must(sim.git("cherry-pick", feat), "cherry-pick")
-                steps = [("post_commit", 1), ("post_commit", 0), ("rewrite_authorship_after_cherry_pick", 0)]
-            elif path == "squash":
-                must(sim.git("merge", "--squash", "feat"), "merge --squash")
-                must(sim.git("commit", "-q", "-m", "squashed"), "commit squashed")
-                steps = [("post_commit", 1), ("post_commit", 0), ("post_commit", 0)]
-            else:
-                must(sim.realgit("merge", "--squash", "feat"), "plain merge --squash")
-                must(sim.realgit("commit", "-q", "-m", "squashed by the forge"), "plain commit")
-                new = sim.head()
-                must(sim.gitai("squash-authorship", "main", new, feat), "squash-authorship")
-                steps = [("post_commit", 1), ("post_commit", 0), ("rewrite_authorship_after_squash_or_rebase", 0)]
-        elif path == "reset-recommit":
-            must(ag.edit("s1", "f.txt", ai_text(F0, "1"), "t1"), "checkpoint")
-            commit("c1")
-            must(sim.git("reset", "--soft", "HEAD~1"), "reset --soft")
-            must(sim.git("commit", "-q", "-m", "c1 again"), "recommit")
-            steps = [("post_commit", 1), ("post_commit", 0)]
-        elif path == "stash-pop":
-            must(ag.edit("s1", "f.txt", ai_text(F0, "1"), "t1"), "checkpoint")
-            must(sim.git("stash"), "stash")
-            must(sim.git("stash", "pop"), "stash pop")
-            commit("c1")
-            steps = [("post_commit", 1)]
+        steps = []
+        for k, path in enumerate(paths):
+            steps += run_phase(sim, ag, path, k, inline, must)
         needles = CANARY_WORDS + [keys["text"], keys["tool"], keys["long"]]
         hits, nblobs = scan_ref(sim, "refs/notes/ai", needles)
         shits, sblobs = scan_ref(sim, "refs/notes/ai-stash", needles)
         head_note = sim.note_raw(sim.head()) or ""
-        return {"idx": idx, "config": cfgname, "path": path, "kind": kind, "steps": steps,
+        return {"idx": idx, "config": cfgname, "path": "+".join(paths), "kind": kind, "steps": steps,
                 "hits": {k: len(v) for k, v in hits.items()}, "blobs": nblobs,
                 "stash_hits": {k: len(v) for k, v in shits.items()}, "stash_blobs": sblobs,
                 "head_has_note": bool(head_note), "masked_in_head": "********" in head_note,
+                "cas_url_in_head": "/cas/" in head_note,
                 "problems": problems, "log": sim.log[-40:]}
     finally:
         shutil.rmtree(sim.base, ignore_errors=True)
@@ -533,6 +553,7 @@ def run(ctx):
     model = C.run_cases(drv, "c08-redact", model_in) if ctx.model_ok else {}
     model_tok = C.run_cases(drv, "c08-tokens", [(i, body[i]) for i, *_ in cases]) if ctx.model_ok else {}
     n_flagged_texts = n_cand_texts = n_long_runs = n_contbad = n_oracle_ok = 0
+    again, thm_bad = [], []
     long_probe = []      # (case id, run bytes) for K3
     tok_disagree = 0
     for i, emb, kinds, t in cases:
@@ -567,6 +588,10 @@ def run(ctx):
             distinct.add(t)
         if nfl:
             n_flagged_texts += 1
+            again.append((i, ob))
+            flagged_total = sum(len(c) for c, v in cands if v)
+            if len(ob) + flagged_total != len(tb) + 16 * n:
+                thm_bad.append(f"C08_length instance fails on {t[:80]!r}")
         if fail:
             violations.append((f"{fail}: text {t[:120]!r} -> {ob[:120]!r}",
                                {"kind": "redact", "text": t, "out": ob.decode("utf-8", "replace"),
@@ -584,6 +609,14 @@ def run(ctx):
                             "out": ob.decode("utf-8", "replace")[:200],
                             "classifier": [[c.decode(), v] for c, v in cands][:4], "model": str(model.get(i))[:120],
                             "oracle": "pass" if not fail else fail})
+    # theorem instances on the implementation: idempotence (second pass changes nothing), exact length relation
+    second = C.run_cases(C.VHARNESS, "c08-redact", [(i, bl(ob)) for i, ob in again])
+    for i, ob in again:
+        p2 = parse_redact_result(second.get(i))
+        if p2 is None or p2[0] != ob or p2[1] != 0:
+            thm_bad.append(f"C08_redact_idempotent instance fails: second pass over {ob[:80]!r} gives {second.get(i, '')[:80]}")
+    obligations.append(("tie:theorem instances on the implementation (C08_redact_idempotent, C08_length) for every text "
+                        "with a flagged token", not thm_bad, "; ".join(thm_bad[:3])))
     obligations.append(("monitor:extract_tokens returns exactly the maximal runs of 15..90 secret bytes (regex view)",
                         tok_disagree == 0, f"{tok_disagree} texts differ"))
     obligations.append(("monitor:cont_ok holds of every generated text (valid UTF-8)", n_contbad == 0, f"{n_contbad} bad"))
@@ -718,6 +751,17 @@ def run(ctx):
                 for kind in kinds:
                     items.append((ctx.scratch, k, cfg, p, kind, keys))
                     k += 1
+        pairs = [(a_, b_) for a_ in PATHS for b_ in PATHS]
+        if quick:
+            pairs = [r.pick(pairs) for _ in range(24)] + [("amend-pending", "rebase-slow"), ("amend-pending", "cherry-pick")]
+            pair_cfgs = ["default", "notes"]
+        else:
+            pair_cfgs = cfgs
+        for cfg in pair_cfgs:
+            for pa in pairs:
+                for kind in kinds:
+                    items.append((ctx.scratch, k, cfg, list(pa), kind, keys))
+                    k += 1
         res = C.parallel_map(run_path, items)
         # what the model needs: the conversation, the classifier's verdicts, which agent keeps text inline
         ag = Agent(None, "inline", keys)
@@ -743,7 +787,7 @@ def run(ctx):
         model_cases = [(str(x["idx"]), sys_model_case(x, keys, msgs_sx, cands_sx, has_inline))
                        for x in res if "error" not in x]
         pred = C.run_cases(drv, "c08-run", model_cases, shards=4) if ctx.model_ok else {}
-        engine_bad, seen_text_in_notes_mode = [], 0
+        engine_bad, seen_text_in_notes_mode, cas_seen = [], 0, 0
         for x in res:
             if "error" in x:
                 violations.append(("engine error", x))
@@ -761,7 +805,7 @@ def run(ctx):
                 engine_bad.append(f"{x['config']}/{x['path']}/{x['kind']}: {x['problems'][0]}")
             if sum(x["stash_hits"].values()):
                 stash_obs += 1
-            pending_inline_amend = x["path"] == "amend-pending" and x["kind"] == "inline"
+            pending_inline_amend = "amend-pending" in x["path"].split("+") and x["kind"] == "inline"
             fails = []          # (text, known class or None)
             if eff != "notes":
                 if words or any(raw.values()):
@@ -791,6 +835,8 @@ def run(ctx):
                 got = pred.get(str(x["idx"]), "")
                 if want not in got:
                     sys_mism.append(f"{x['config']}/{x['path']}/{x['kind']}: binary {want} model {got}")
+            if x["config"] == "default+custom-api" and x["path"] == "commit":
+                cas_seen += 1 if x["cas_url_in_head"] else 0
             if len(samples) < 7 and (fails or (eff == "notes" and x["path"] == "commit")):
                 samples.append({"case": "system", "config": x["config"], "effective_mode": eff, "path": x["path"],
                                 "agent": x["kind"], "note_blobs_read": x["blobs"], "canary_words_found": words,
@@ -801,6 +847,8 @@ def run(ctx):
                             "; ".join(engine_bad[:3])))
         obligations.append(("monitor:the scan sees conversation text when it is there (notes-mode scenarios show the canaries)",
                             seen_text_in_notes_mode > 0, f"{seen_text_in_notes_mode} scenarios"))
+        obligations.append(("monitor:the redact + CAS-enqueue arm of the default mode was exercised (messages_url in the note)",
+                            cas_seen > 0, f"{cas_seen} scenarios"))
         if ctx.model_ok:
             obligations.append(("tie:system-level - Model/Taint.v run over the generated inventory predicts exactly "
                                 "which canaries / keys reach refs/notes/ai", not sys_mism, "; ".join(sys_mism[:3])))
@@ -813,8 +861,8 @@ def run(ctx):
         "searched": f"{len(cases)} texts through redact_secrets_in_text (tokens of 14/15/16/89/90/91/200 bytes, base64/hex/"
                     f"uuid/sk_live/ghp/AWS/JWT/identifiers/paths in JSON, URLs, code, env files, prose, multibyte "
                     f"neighbours), {len(scases)} strings through redact_secret, {len(pcases)} prompt maps, {sys_runs} "
-                    f"system-level scenarios ({len(CONFIGS)} configurations x {len(PATHS)} paths x 2 agent kinds, every blob of "
-                    f"every commit of refs/notes/ai read back); {len(mism)} in-process and {len(sys_mism)} system-level "
+                    f"system-level scenarios ({len(CONFIGS)} configurations x {len(PATHS)} paths x 2 agent kinds, plus pairs of "
+                    f"paths composed in one repository; every blob of every commit of refs/notes/ai read back); {len(mism)} in-process and {len(sys_mism)} system-level "
                     f"model/impl mismatches: " + "; ".join(mism[:3] + sys_mism[:3]),
         "coverage": {
             "evaluations": n_eval,
